@@ -112,4 +112,4 @@ META["C19"] = _m("proof", "DESIGN.md section 6, C19",
 META["C12"] = _m("proof", "DESIGN.md section 6, C12",
     "Coq model of the undo manager for a flat scope (capture steps, both stacks, try_process, re-creation through redone pointers) with the stack-mirror oracle as an executable definition; theorems: the inverse law for EVERY program of capture steps / undo / redo calls (unbounded; additionally enumerated on a finite universe inside the kernel), and unbounded invariants under interference (other origins' insertions stay visible, values and deletion flags never altered); tied to the code by comparing content / stack depths / return values with the implementation after every action of random flat programs, and by applying the same oracle to the implementation on all types incl. nesting, plus interference checks and convergence",
     "The inverse law quantifies over all histories, groupings and interleavings of undo / redo. The model makes the re-creation mechanics (copies placed next to the tombstone they re-create, map-entry conflict walk, resolution of captured insertions through chains of copies) explicit and the law is proved for every program without bound (through an abstract lineage model); the correspondence (about a million actions per thorough run) shows the implementation follows the model step for step on a flat scope, and the oracle itself is run on the implementation for everything the model does not cover.",
-    "Partial: the model covers a flat scope; nested types are decided on the implementation only. Six defects of the pinned tree repaired (two use-after-free, a panic, three wrong results); recorded finding: failures after a nested type was re-created by undo / redo.")
+    "Partial: the model covers a flat scope; nested types are decided on the implementation only. Eight defects of the pinned tree repaired (two use-after-free, a panic, a divergence, four wrong results); no recorded finding remains.")
